@@ -210,6 +210,9 @@ func (w *Wrapper) Set(key string, val any) {
 func (w *Wrapper) Copy() Resource {
 	nw := Wrap(reflect.New(w.val.Type()).Interface())
 
+	// ID
+	nw.SetID(w.GetID())
+
 	// Attributes
 	for _, attr := range w.Attrs() {
 		switch v := w.Get(attr.Name).(type) {
